@@ -196,16 +196,7 @@ theorem ctfTRu_correct_partial (target : MG Name) (ds : List Domain) (e : Event)
         ∀ (F : FscmFamily) (graphs : Option Name → MG Name), F.CompatibleWith target graphs (declsOf ds) →
         ∀ (ν : BaseValues), ν.Distinct → ∀ (σ σ' : Val), (∀ x, σ x < F.card x) → EventReading ν σ ev →
           den (F.env graphs) σ' x σ = probEventOpt F.target ν e)) := by
-  have hcls : CrashClassU e = false := by
-    have : Reflexive e = false := by
-      unfold Reflexive
-      rw [List.any_eq_false]
-      intro p hp
-      have := hrefl p hp
-      unfold selfIntervened at this
-      simpa using this
-    simp [CrashClassU, this]
-  rcases ctfTRu_answers_or_fails target ds e hv hwf hdecl.wf hcls hplain hdom with ⟨⟨x, oev⟩, ha⟩ | hf
+  rcases ctfTRu_answers_or_fails target ds e hv hwf hdecl.wf hplain hdom with ⟨⟨x, oev⟩, ha⟩ | hf
   · cases oev with
     | none =>
       refine Or.inr (Or.inl ?_)
